@@ -106,7 +106,7 @@ fn hostile<S: MlDsa>(seed: u64, scale: usize, out: &mut Out) {
     for _ in 0..(20 * scale) { let b = p.bytes(S::SK_LEN); let b2 = b.clone(); t.call("sk.try_from_bytes", "random bytes", move || json!({"sk": hexs(&b2)}), || S::sk_from(&b).map(|k| S::sk_bytes(&k)).is_ok()); }
     // key generation and the constant-time test entry point
     for _ in 0..(10 * scale) { let xi = p.arr32(); t.call("keygen", "seeded + serialise + derive", || json!({"xi": hexs(&xi)}), || { let (a, b) = S::keygen_seed(&xi); (S::pk_bytes(&a), S::sk_bytes(&b), S::pk_bytes(&S::derive(&b))) }); }
-    for _ in 0..(4 * scale) { let d = p.bytes(64); let d2 = d.clone(); t.call("dudect_keygen_sign_with_rng", "random RNG output", move || json!({"rng": hexs(&d2)}), || S::dudect(&mut ScriptRng::new(&d), b"ct").is_ok()); }
+    for _ in 0..(400 * scale) { let d = p.bytes(64); let d2 = d.clone(); t.call("dudect_keygen_sign_with_rng", "random RNG output", move || json!({"rng": hexs(&d2)}), || S::dudect(&mut ScriptRng::new(&d), b"ct").is_ok()); }
 
     for ((op, class), (count, panics)) in t.map {
         out.ev(json!({"ev": "Calls", "set": S::SET, "op": op, "class": class, "count": count, "panics": panics}));
